@@ -2,6 +2,7 @@
 import asyncio
 import contextlib
 import logging
+import signal
 
 logging.disable(logging.CRITICAL)
 
@@ -44,3 +45,27 @@ def missing_attr(src, obj, name):
     if not hasattr(obj, name):
         from symx.core import unsupported
         unsupported(f"harness plants state into {type(obj).__name__}.{name}, which no longer exists")
+
+
+class Runaway(BaseException):
+    """raised inside the code under test when it has used up its CPU-time budget (BaseException: library
+    code with a broad `except Exception` cannot swallow it)"""
+
+
+@contextlib.contextmanager
+def watchdog(cpu_seconds=2.0):
+    """Budget of process CPU time (ITIMER_VIRTUAL: independent of machine load) for a piece of code that
+    must terminate on every input; harness workers and replays run in the main thread of their process."""
+    def on_alarm(sig, frame):
+        raise Runaway()
+    try:
+        old = signal.signal(signal.SIGVTALRM, on_alarm)
+    except ValueError:  # not the main thread: no guard available
+        yield
+        return
+    signal.setitimer(signal.ITIMER_VIRTUAL, cpu_seconds)
+    try:
+        yield
+    finally:
+        signal.setitimer(signal.ITIMER_VIRTUAL, 0)
+        signal.signal(signal.SIGVTALRM, old)
